@@ -16,7 +16,12 @@ use std::iter;
 use std::marker::PhantomData;
 use std::mem::size_of;
 use std::rc::Rc;
+#[cfg(not(xray_verif))]
 use std::time::{Duration, Instant};
+#[cfg(xray_verif)]
+use crate::verif::Instant;
+#[cfg(xray_verif)]
+use std::time::Duration;
 
 const VERBOSE_ALLOC: bool = false;
 
@@ -54,7 +59,14 @@ impl RuntimeLimits {
         )
     }
 
+    #[cfg_attr(xray_verif, track_caller)]
     pub fn check_permission(&self, permission: &Permission) -> RuntimeResult<()> {
+        #[cfg(xray_verif)]
+        crate::verif::observe(crate::verif::Event::Permission {
+            id: permission.id,
+            ok: self.permissions.get(permission),
+            site: std::panic::Location::caller(),
+        });
         if self.permissions.get(permission) {
             Ok(())
         } else {
@@ -108,14 +120,35 @@ pub struct Runtime<W, R, T> {
 pub type RTCell<W = Stdout, R = StdRng, T = SystemTimeProvider> = Rc<Runtime<W, R, T>>;
 
 impl<W, R, T> Runtime<W, R, T> {
+    /// total bytes currently accounted for live values
+    #[cfg(xray_verif)]
+    pub fn verif_accounted_bytes(&self) -> usize {
+        usize::from(self.stats.borrow().size)
+    }
+
+    /// user-defined function calls counted since the last reset
+    #[cfg(xray_verif)]
+    pub fn verif_ud_calls(&self) -> usize {
+        self.stats.borrow().ud_calls
+    }
+
+    #[cfg_attr(xray_verif, track_caller)]
     pub fn can_allocate(&self, new_size: usize) -> RuntimeResult<()> {
         self.can_allocate_by(|| Some(new_size))
     }
 
+    #[cfg_attr(xray_verif, track_caller)]
     pub fn can_allocate_by(&self, f: impl Fn() -> Option<usize>) -> RuntimeResult<()> {
         if let Some(size_limit) = self.limits.size_limit {
             if let Some(size) = f() {
                 let stat = self.stats.borrow();
+                #[cfg(xray_verif)]
+                crate::verif::observe(crate::verif::Event::Preflight {
+                    request: Some(size),
+                    total: usize::from(stat.size),
+                    ok: usize::from(stat.size) + size <= size_limit,
+                    site: std::panic::Location::caller(),
+                });
                 if usize::from(stat.size) + size > size_limit {
                     return Err(RuntimeViolation::AllocationLimitReached);
                 }
@@ -124,6 +157,7 @@ impl<W, R, T> Runtime<W, R, T> {
         Ok(())
     }
 
+    #[cfg_attr(xray_verif, track_caller)]
     pub fn can_afford(&self, x: &impl ProspectiveSize) -> RuntimeResult<()> {
         self.can_allocate_by(|| Some(x.prospective_size()))
     }
@@ -139,6 +173,10 @@ impl<W, R, T> Runtime<W, R, T> {
     }
 
     pub fn check_timeout(&self) -> RuntimeResult<()> {
+        #[cfg(xray_verif)]
+        crate::verif::observe(crate::verif::Event::TimeoutCheck {
+            armed: self.stats.borrow().timeout.is_some(),
+        });
         self.stats
             .borrow()
             .timeout
@@ -151,6 +189,11 @@ impl<W, R, T> Runtime<W, R, T> {
         if let Some(ud_limit) = self.limits.ud_call_limit {
             let mut stats = self.stats.borrow_mut();
             stats.ud_calls += 1;
+            #[cfg(xray_verif)]
+            crate::verif::observe(crate::verif::Event::CallCount {
+                count: stats.ud_calls,
+                ok: stats.ud_calls < ud_limit,
+            });
             if stats.ud_calls >= ud_limit {
                 return Err(RuntimeViolation::MaximumUDCall);
             }
@@ -162,6 +205,7 @@ impl<W, R, T> Runtime<W, R, T> {
         self.stats.borrow_mut().ud_calls = 0
     }
 
+    #[cfg_attr(xray_verif, track_caller)]
     pub(crate) fn allocate<A: Allocateable + Debug>(
         &self,
         value: &A,
@@ -176,6 +220,13 @@ impl<W, R, T> Runtime<W, R, T> {
                     stats.size
                 );
             }
+            #[cfg(xray_verif)]
+            crate::verif::observe(crate::verif::Event::Alloc {
+                size: usize::from(size),
+                total_after: usize::from(stats.size),
+                ok: usize::from(stats.size) <= max_size,
+                site: std::panic::Location::caller(),
+            });
             if usize::from(stats.size) > max_size {
                 Err(RuntimeViolation::AllocationLimitReached)
             } else {
@@ -188,6 +239,11 @@ impl<W, R, T> Runtime<W, R, T> {
 
     pub(crate) fn deallocate(&self, size: AllocatedMemory) {
         if !size.is_zero() {
+            #[cfg(xray_verif)]
+            crate::verif::observe(crate::verif::Event::Dealloc {
+                size: usize::from(size),
+                total_after: usize::from(self.stats.borrow().size).wrapping_sub(usize::from(size)),
+            });
             self.stats.borrow_mut().size -= size
         }
     }
